@@ -40,13 +40,24 @@ func decodeNoResponseOption(v uint32) []codes.Code {
 
 // IsNoResponseCode validates response code against NoResponse option from request.
 // https://www.rfc-editor.org/rfc/rfc7967.txt
+//
+// The option value is a bit map over response classes (2 = 2.xx, 8 = 4.xx, 16 = 5.xx), so the
+// decision depends only on the class of the code (its upper three bits), not on whether the
+// code is one of the currently registered ones.
 func IsNoResponseCode(code codes.Code, noRespValue uint32) error {
-	suppressedCodes := decodeNoResponseOption(noRespValue)
-
-	for _, suppressedCode := range suppressedCodes {
-		if suppressedCode == code {
-			return ErrMessageNotInterested
-		}
+	var classBit uint32
+	switch code >> 5 {
+	case 2:
+		classBit = 1
+	case 4:
+		classBit = 3
+	case 5:
+		classBit = 4
+	default:
+		return nil
+	}
+	if isSet(noRespValue, classBit) {
+		return ErrMessageNotInterested
 	}
 	return nil
 }
